@@ -134,6 +134,68 @@ def run(ctx):
            bool(handlers) and bad_h is None, construct="StopIteration handler leaves the filling loop",
            detail="" if bad_h is None else "path from the handler to `%s`: %s" % (stmt_text(bad_h[1]), " -> ".join("L%d" % x.lineno for x in bad_h[2] if x.lineno)),
            analysis="CFG path query")
+    # C11.CONSERVE - every element drawn from the shared generator goes into the shared list in the same statement
+    # (an element parked anywhere else - a local look-ahead buffer, a per-iterator variable - is invisible to the other
+    # iterators, which then skip it or see it out of order)
+    def gen_alias(e, at):
+        if src(e) == "self._cache_gen":
+            return True
+        if isinstance(e, ast.Name):
+            ds = rd_ic.at(at, e.id)
+            srcs = [src(cfg.nodes[i].ast.value) for i in ds if i and isinstance(cfg.nodes[i].ast, ast.Assign)]
+            return bool(ds) and len(srcs) == len([i for i in ds if i]) and "self._cache_gen" in srcs and all(
+                s in ("self._cache_gen", "None") for s in srcs)
+        return False
+
+    def is_cache(e, at):
+        return src(e) == "self._cache" or (isinstance(e, ast.Name) and cache_local(e.id, at))
+    draws = []
+    for n in cfg.live_nodes():
+        root = n.ast if n.kind in ("stmt", "branch") else None
+        if n.kind == "stmt" and isinstance(n.ast, (ast.For,)):
+            root = None
+        if root is None:
+            # loop heads: a `for x in <expr mentioning the generator>` draws too
+            loop = getattr(n, "loop", None)
+            if n.kind == "branch" and isinstance(loop, ast.For) and n.ast is loop.iter:
+                root = loop.iter
+            else:
+                continue
+        parents = {}
+        for p in ast.walk(root):
+            for ch in ast.iter_child_nodes(p):
+                parents[ch] = p
+        for x in ast.walk(root):
+            if not (isinstance(x, (ast.Name, ast.Attribute)) and isinstance(getattr(x, "ctx", None), ast.Load) and gen_alias(x, n)):
+                continue
+            if isinstance(x, ast.Attribute) and isinstance(parents.get(x), ast.Attribute):
+                continue
+            p = parents.get(x)
+            # uses that draw nothing: the loop/if test on the alias itself, `is None` comparisons, plain copies
+            if p is None or isinstance(p, (ast.Compare, ast.BoolOp, ast.UnaryOp)) or (isinstance(p, ast.Assign) and p.value is x):
+                continue
+            # a draw: must sit inside the argument of <cache>.append / <cache>.extend
+            q, ok = x, False
+            while q in parents:
+                q = parents[q]
+                if (isinstance(q, ast.Call) and isinstance(q.func, ast.Attribute) and q.func.attr in ("append", "extend")
+                        and is_cache(q.func.value, n)):
+                    ok = True
+                    break
+            loop = getattr(n, "loop", None)
+            if not ok and isinstance(loop, ast.For) and root is loop.iter and loop.body:
+                b0 = loop.body[0]
+                ok = (isinstance(b0, ast.Expr) and isinstance(b0.value, ast.Call) and isinstance(b0.value.func, ast.Attribute)
+                      and b0.value.func.attr == "append" and is_cache(b0.value.func.value, n)
+                      and len(b0.value.args) == 1 and src(b0.value.args[0]) == src(loop.target))
+            draws.append((n, x, ok))
+    ctx.floor("C11.CONSERVE", len(draws), 1, "draws from the shared generator in _iter_cached")
+    for n, x, ok in draws:
+        ctx.ob("C11.CONSERVE", ic, "an element drawn from the shared generator is appended to the shared cache list in the same statement "
+               "(nothing is parked in per-iterator storage where other iterators cannot see it)", ok,
+               construct="draw: %s" % stmt_text(n), detail="" if ok else "the drawn element does not go to <cache>.append/extend",
+               analysis="def-use of the generator alias (reaching definitions)")
+
     # C11.OWNLOCK - the cache lock belongs to the instance
     init = prog.method(base.qualname, "__init__", "C11.OWNLOCK")
     from ..lock import find_locks
